@@ -1206,6 +1206,8 @@ class ExprMixin:
         saved_block = getattr(self, "alloc_block", None)
         # objects constructed by the element expression: one allocation per element, element q gets identity base + q
         self.alloc_block = None if outer_binders else {"q": q, "n": to_z3(length), "base": to_z3(st.alloc), "count": 0, "writes": []}
+        saved_facts = self.__dict__.get("_elem_facts")
+        self._elem_facts = elem_facts = []
         try:
             elt = self.ev(node.elt, st2)
             block = self.alloc_block
@@ -1213,13 +1215,15 @@ class ExprMixin:
             self.guard.pop()
             self.binders = tuple(self.binders)[:-1]
             self.alloc_block = saved_block
+            self._elem_facts = saved_facts
+        if saved_facts is not None and not outer_binders:
+            saved_facts.extend(elem_facts)
         if block is not None and block["count"]:
             self.commit_alloc_block(block, st)
-        for f in st2.pc[len(st.pc):]:
-            # facts established while evaluating the element expression that do not depend on the position q (e.g. the
-            # postconditions of an observer contract call, quantified over q) hold in the enclosing state as well (as in ev_DictComp)
-            if not any(v.eq(q) for v in _free_consts(f)):
-                st.assume(f)
+        for f in elem_facts:
+            # the postconditions of observer contract calls in the element expression (call_contract_elementwise), already
+            # quantified over the comprehension variables, hold in the enclosing state as well
+            st.assume(f)
         # may-raise conditions recorded under the guard mention q: close them existentially
         self.close_mayraise(q)
         eshape = shape_of(elt)
